@@ -165,8 +165,15 @@ def task_average_marks(pr, repo):
     C08.task_average(pr, repo, 2, ('marks',))
 
 
+def task_group_equality(pr, repo):
+    # registration (`in`), the partner search and get_interaction all compare groups with Group.__eq__: the symmetry of the marks
+    # needs it to be label (+ residue number for hetero groups) equality - C06-EQ on the real __eq__
+    from . import C06
+    C06.task_eq_label(pr, repo)
+
+
 def run(pr, repo):
-    pr.parallel([(C02.task_swap, ()), (C02.task_swap_once, ()), (task_involution, ()), (task_couple, ()), (task_identify, ()), (task_container_search, ()), (task_average_marks, ()), (C02.task_sequencing, ()), (C02.task_sections, ()),
+    pr.parallel([(task_group_equality, ()), (C02.task_swap, ()), (C02.task_swap_once, ()), (task_involution, ()), (task_couple, ()), (task_identify, ()), (task_container_search, ()), (task_average_marks, ()), (C02.task_sequencing, ()), (C02.task_sections, ()),
                  (C02.task_render, ())])
     pr.assumptions += ['A-REAL: after the swap back the determinant LIST ORDER differs, so float sums may differ in the last ulp; '
                        '"undone exactly" is proved for the multisets and over the reals, and monitored to 1e-9 in floats',
